@@ -42,3 +42,11 @@ Proof. exact normal_fast_panics_only_on_all_ones. Qed.
 Theorem normal_fast_path_agrees_with_the_specification : forall e m raw, -307 < e < 288 -> 1 <= m < W64 ->
   parse_floating_normal_fast e m = Some (Some raw) -> Spec.Num.round_pos m e = Spec.Num.Bits raw.
 Proof. exact normal_fast_agrees_with_oracle. Qed.
+
+From SonicV Require Import Model.FuncsDigits.
+Import ListNotations.
+(* sonic-number/src/common.rs is_8digits as written (the SWAR test of the decimal slow path): on the little-endian
+   word of any eight bytes it answers exactly "all eight are ASCII digits" *)
+Theorem eight_digit_test_as_written : forall l, length l = 8%nat -> Forall (fun b => 0 <= b < 256) l ->
+  is_8digits (le_word l) = Some (forallb is_digit l).
+Proof. exact is_8digits_translated. Qed.
